@@ -95,7 +95,15 @@ def m_isinstance(interp, args, kwargs):
     from .interp import Closure, BoundMethod
     if isinstance(obj, (Closure, BoundMethod)):
         return any(t in (object, types.FunctionType) for t in tps)
+    # a model class (pyvc/pymodels) declares the library classes whose instances it stands for
+    stands_for = getattr(type(obj), '_pv_stands_for', None)
+    if stands_for and any(inspect_isclass(t) and issubclass(s, t) for t in tps for s in stands_for):
+        return True
     return isinstance(obj, tp)
+
+
+def inspect_isclass(t):
+    return isinstance(t, type)
 
 
 @model(builtins.len)
@@ -270,7 +278,8 @@ def m_tuple(interp, args, kwargs):
     if isinstance(src, (SOpt, SChoice)):
         src = interp.resolve(src)
     if isinstance(src, SList):
-        return src
+        from . import seqs
+        return seqs.frozen(src)
     return tuple(interp.iterate(src))
 
 
@@ -460,6 +469,14 @@ def m_next(interp, args, kwargs):
     from .interp import GenObj, PyRaise
     if isinstance(it, SIter):
         return it.next(interp, args[1:] if len(args) > 1 else None)
+    if isinstance(it, Opaque):
+        # an iterator known through its interface: `__next__` (may raise StopIteration by its own contract)
+        try:
+            return interp.reg.call_opaque(interp, it, '__next__', [], {})
+        except PyRaise as e:
+            if isinstance(e.exc, StopIteration) and len(args) > 1:
+                return args[1]
+            raise
     if isinstance(it, GenObj):
         try:
             return it.send(None)
@@ -578,14 +595,54 @@ def m_reduce(interp, args, kwargs):
     return acc
 
 
+def _chain(interp, parts):
+    """itertools.chain over a concrete number of iterables: when one of them is a sequence of symbolic
+    length the result is their concatenation (an immutable sequence stands for the one-shot iterator:
+    sound as long as it is consumed once -- tuple()/list()/one loop)."""
+    parts = [interp.resolve(p) if isinstance(p, (SOpt, SChoice)) else p for p in parts]
+    if any(isinstance(p, SList) for p in parts):
+        from . import seqs
+        acc = None
+        for p in parts:
+            piece = p if isinstance(p, SList) else list(interp.iterate(p))
+            acc = piece if acc is None else seqs.concat(interp, acc, piece)
+        return acc if isinstance(acc, SList) else iter(acc)
+    return itertools.chain(*[interp.iterate(p) for p in parts])
+
+
+import collections  # noqa: E402
+
+
+@model(collections.deque)
+def m_deque(interp, args, kwargs):
+    """collections.deque without maxlen: a mutable symbolic list that also has popleft / appendleft"""
+    if kwargs or len(args) > 1:
+        raise Unsupported('deque with maxlen')
+    from .mlist import MList, from_concrete
+    from . import seqs
+    if args:
+        src = args[0]
+        if isinstance(src, (SOpt, SChoice)):
+            src = interp.resolve(src)
+        if isinstance(src, (SList, SIter, SEnumerate)):
+            m = MList(interp, interp.st.fresh_name('deque'), None)
+            m.extend(interp, seqs.as_slist(interp, src))
+        else:
+            m = from_concrete(interp, list(interp.iterate(src)), 'deque')
+    else:
+        m = MList(interp, interp.st.fresh_name('deque'), None)
+    m.is_deque = True
+    return m
+
+
 @model(itertools.chain)
 def m_chain(interp, args, kwargs):
-    return itertools.chain(*[interp.iterate(a) for a in args])
+    return _chain(interp, list(args))
 
 
 @model(itertools.chain.from_iterable)
 def m_chain_from_iterable(interp, args, kwargs):
-    return itertools.chain.from_iterable(interp.iterate(a) for a in interp.iterate(args[0]))
+    return _chain(interp, list(interp.iterate(args[0])))
 
 
 for _op in (operator.lt, operator.le, operator.gt, operator.ge, operator.eq, operator.ne):
@@ -620,7 +677,9 @@ def m_str_join(interp, self, args, kwargs):
     if isinstance(src, (SList, SIter)):
         from . import texts
         if self != '':
-            raise Unsupported('str.join with a non-empty separator over a symbolic-length sequence')
+            # a non-empty separator: the structural join of pyvc.strings (no prefix measure)
+            from . import strings, seqs
+            return strings.join_slist(interp, self, seqs.as_slist(interp, src))
         return texts.join_all(interp, src) if isinstance(src, SList) else texts.join_iter(interp, src)
     items = list(interp.iterate(src))
     if not contains_sym(items, 1) and not isinstance(self, Sym):
@@ -648,6 +707,22 @@ def m_str_format(interp, self, args, kwargs):
         return SStr(interp.st.fresh_str('fmt'))
     try:
         return self.format(*[_fmt_arg(interp, a) for a in args], **{k: _fmt_arg(interp, v) for k, v in kwargs.items()})
+    except Exception as e:
+        raise _pyraise(e)
+
+
+@method_model(str, 'format_map')
+def m_str_format_map(interp, self, args, kwargs):
+    mapping = args[0]
+    if isinstance(mapping, (SOpt, SChoice)):
+        mapping = interp.resolve(mapping)
+    if not isinstance(mapping, dict):
+        raise Unsupported('str.format_map with %r' % type(mapping).__name__)
+    if contains_sym(mapping, 2) or any(_has_sym_state(a) for a in mapping.values()):
+        # a message with symbolic parts: an unconstrained string (as for str.format)
+        return SStr(interp.st.fresh_str('fmt'))
+    try:
+        return self.format_map({k: _fmt_arg(interp, v) for k, v in mapping.items()})
     except Exception as e:
         raise _pyraise(e)
 
@@ -786,11 +861,17 @@ def slist_comprehension(interp, xs, gens, i, child, emit):
 class SIter:
     """Iterator over an SList: (sequence, position) cell."""
 
-    def __init__(self, xs, pos):
+    def __init__(self, xs, pos, eager=False):
         self.xs = xs
         self.pos = pos      # int or z3 term
+        # eager: stands for a generator that is used through its contract -- all its items and effects at the
+        # call.  Equivalent to the lazy generator only if it is consumed completely, which is checked where it
+        # is consumed (loop without early exit, list()/deque()/sorted()..., never next()).
+        self.eager = eager
 
     def next(self, interp, default):
+        if self.eager:
+            raise Unsupported('next() on a generator that is used through its contract (items and effects at the call)')
         p = to_z3(self.pos) if not isinstance(self.pos, int) else z3.IntVal(self.pos)
         if interp.st.fork(wrap(p < self.xs.length)):
             v = slist_elem(interp, self.xs, p)
